@@ -17,7 +17,18 @@ def judge(ln):
     if R[0] == 'build-err': return ('skip', 'not-built')
     scale_ = max(fnorm(p) for p in outer)
     if scale_ > 1e6: return ('skip', 'outside-metre-scale')
-    if R[0] == 'panic': return ('fail', 'panic', 'get_closed_loop panicked')
+    if R[0] == 'panic':
+        # get_closed_loop = try_get_closed_loop().unwrap(): tell the known mechanism apart (exact re-enactment shared with C01/C09):
+        # a bridge that is collinear with the edge following it makes Loop3D::push drop the bridge's end vertex
+        key = 'panic'
+        try:
+            from . import c01 as G
+            cs, _k = G.prepare(A, 0, [])
+            if cs is not None and any(getattr(c, 'merge_lost', False) and cs.cand_precondition(c) is None for c in cs.cands):
+                key = 'panic:merge-drops-vertex'
+        except Exception:
+            pass
+        return ('fail', key, 'get_closed_loop panicked' + (' (push dropped a vertex of the merged outline)' if key != 'panic' else ''))
     L, j = rd_loop_state(R, 1)
     if L.pts is None: return ('fail', 'non-finite', 'merged outline has non-finite vertices')
     Vo = vector_area_rel(outer)
